@@ -415,6 +415,12 @@ func parseRange(s string, size int64) ([]httpRange, error) {
 			if i > size {
 				i = size
 			}
+			if i == 0 {
+				// RFC 7233, Section 2.1: a suffix-length of zero (or any suffix of
+				// empty content) selects no bytes, so it is not satisfiable.
+				noOverlap = true
+				continue
+			}
 			r.start = size - i
 			r.length = size - r.start
 		} else {
